@@ -83,7 +83,7 @@ def check_circuit(recipe, env, maxph, acc):
 def run(tier, seed):
     env = Env(seed)
     fam = emulator_family(env, tier)
-    maxph = {2: 3, 3: 2, 4: 2} if tier == "quick" else {2: 5, 3: 4, 4: 3, 5: 2}
+    maxph = {2: 5, 3: 2, 4: 2} if tier == "quick" else {2: 5, 3: 4, 4: 3, 5: 2}
 
     def shard_fn(recipes):
         acc = kernel.Acc()
